@@ -506,7 +506,9 @@ def generation(repo: Repo, rep: Report) -> None:
     try:
         # every behaviour of the callbacks on up to 4 solver calls: (sat, unique) per call, two annealing coin values
         for script in itertools.product([(False, False), (False, True), (True, False), (True, True)], repeat=4):
-            for coin in (0.0, 0.999):
+            for coin, timeout_at in ((0.0, None), (0.999, None), (0.0, 1), (0.0, 2), (0.999, 1)):
+                # timeout_at: the solver callback raises subprocess.TimeoutExpired on that call (config.solver_timeout expired): the run may
+                # fail with it, or go on - but a problem whose solver call timed out was never reported SAT
                 for solve_initial in (False, True):
                     n += 1
                     cw = ClassWorld([mod])
@@ -518,6 +520,9 @@ def generation(repo: Repo, rep: Report) -> None:
                         i = len(calls)
                         sat, _u = script[min(i, len(script) - 1)]
                         ans = Tag(f"answer-{i}")
+                        if timeout_at is not None and i == timeout_at:
+                            calls.append((p, "timeout", None))
+                            raise Raised("subprocess.TimeoutExpired(solver, timeout)")
                         calls.append((p, sat, ans))
                         return (sat, ans)
 
@@ -538,19 +543,24 @@ def generation(repo: Repo, rep: Report) -> None:
                     cw.genv["srandom.random"] = lambda: coin
                     cw.genv["srandom"] = Tag("srandom")
                     cw.genv["sys.stderr"] = Tag("stderr")
-                    r = cw.call("generate_problem", solver, initial_problem=Tag("problem-0"), neighbor_generator=neighbours,
-                                score=lambda *a: 1, uniqueness=uniqueness, max_steps=2, solve_initial_problem=solve_initial)
+                    try:
+                        r = cw.call("generate_problem", solver, initial_problem=Tag("problem-0"), neighbor_generator=neighbours,
+                                    score=lambda *a: 1, uniqueness=uniqueness, max_steps=2, solve_initial_problem=solve_initial)
+                    except Raised as ex:
+                        if timeout_at is not None and "TimeoutExpired" in ex.what:
+                            continue  # the timeout ends the run: nothing was returned
+                        raise
                     if r is None:
-                        if any(sat and script[min(i, 3)][1] and i >= (1 if solve_initial else 0) and i < len(calls)
-                               for i, (p, sat, ans) in enumerate(calls)):
+                        if timeout_at is None and any(sat and script[min(i, 3)][1] and i >= (1 if solve_initial else 0) and i < len(calls)
+                                                      for i, (p, sat, ans) in enumerate(calls)):
                             bad = f"callback script {script}, coin {coin}: a neighbour was SAT and unique but None was returned"
                             break
                         continue
                     rec = [(i, sat) for i, (p, sat, ans) in enumerate(calls) if p == r]
-                    okay = bool(rec) and all(sat for _, sat in rec) and any(script[min(i, 3)][1] for i, _ in rec) and \
+                    okay = bool(rec) and all(sat is True for _, sat in rec) and any(script[min(i, 3)][1] for i, _ in rec) and \
                         any((calls[i][2],) in uniq_calls for i, _ in rec)
                     if not okay:
-                        bad = (f"callback script {script}, coin {coin}, solve_initial_problem={solve_initial}: returned {r!r}; "
+                        bad = (f"callback script {script}, coin {coin}, solver timeout on call {timeout_at}, solve_initial_problem={solve_initial}: returned {r!r}; "
                                f"solver calls {[(str(p), s) for p, s, a in calls]}, uniqueness asked about {uniq_calls}")
                         break
                 if bad:
